@@ -5,7 +5,8 @@
      W1  = bytes of MIR_write_with_func, W2 = bytes of a second MIR_write_with_func (the stack is
            filled with a different pattern before each call, so that serialised uninitialised
            memory shows up as a difference)
-     RB  = MIR_read_with_func (W1) into a fresh context; T1 = its MIR_output text
+     RB  = MIR_read_with_func (W1) into a fresh context; T1 = its MIR_output text; RW = bytes of
+           MIR_write_with_func of that context ('=' when equal to W1)
      SC  = MIR_scan_string (T0) into a fresh context; T2 = its MIR_output text
      SC2 = MIR_scan_string (T2) into a fresh context; T3 = its MIR_output text
      X0/X1/X2 = result of loading + linking (interpreter interface) each of the three contexts
@@ -53,6 +54,8 @@
 static jmp_buf err_jmp;
 static char err_msg[400];
 static const char *stage = "init";
+/* every stage announces itself in the output (field @): after a crash the parent knows where it happened */
+#define STAGE(s) do { stage = (s); fprintf (out, "|@=%s", stage); fflush (out); } while (0)
 
 static void MIR_NO_RETURN err_func (MIR_error_type_t et, const char *format, ...) {
   va_list ap;
@@ -492,7 +495,7 @@ static void run_case (FILE *out, char *desc) {
   fprintf (out, "build=ok");
   fflush (out);
 
-  stage = "output";
+  STAGE ("output");
   if (setjmp (err_jmp)) {
     fprintf (out, "|T0=ERR:%s", err_msg);
   } else {
@@ -501,7 +504,7 @@ static void run_case (FILE *out, char *desc) {
   }
   fflush (out);
 
-  stage = "write";
+  STAGE ("write");
   if (setjmp (err_jmp)) {
     fprintf (out, "|W1=ERR:%s", err_msg);
   } else {
@@ -513,7 +516,7 @@ static void run_case (FILE *out, char *desc) {
     fprintf (out, "|W1=");
     put_hex (out, w1.p, w1.n);
     fflush (out);
-    stage = "write2";
+    STAGE ("write2");
     memset (&wbuf, 0, sizeof (wbuf));
     dirty_stack (0xa5);
     MIR_write_with_func (a, writer);
@@ -528,7 +531,7 @@ static void run_case (FILE *out, char *desc) {
   fflush (out);
 
   if (have_w1) {
-    stage = "read";
+    STAGE ("read");
     b = MIR_init ();
     MIR_set_error_func (b, err_func);
     if (setjmp (err_jmp)) {
@@ -539,16 +542,37 @@ static void run_case (FILE *out, char *desc) {
       MIR_read_with_func (b, reader);
       fprintf (out, "|RB=ok");
       rb_ok = 1;
-      stage = "output-after-read";
+      STAGE ("output-after-read");
       t1 = text_of (b, &n1);
       emit_text (out, "T1", t1, n1, t0, n0);
       emit_counters (out, "1", b);
+      /* what was read, written again: the bytes must be the bytes it was read from (every immediate bit for
+         bit, also where the text does not show it: NaN payloads, sizes the text abbreviates) */
+      STAGE ("rewrite");
+      memset (&wbuf, 0, sizeof (wbuf));
+      MIR_write_with_func (b, writer);
+      if (wbuf.n == w1.n && memcmp (wbuf.p, w1.p, w1.n) == 0) {
+        fprintf (out, "|RW==");
+      } else {
+        fprintf (out, "|RW=");
+        put_hex (out, wbuf.p, wbuf.n < 4000 ? wbuf.n : 4000);
+      }
     }
     fflush (out);
   }
 
+  if (want_exec) {
+    STAGE ("exec-original");
+    exec_ctx (out, "X0", a);
+    fflush (out);
+    if (rb_ok) {
+      STAGE ("exec-after-read");
+      exec_ctx (out, "X1", b);
+      fflush (out);
+    }
+  }
   if (t0 != NULL) {
-    stage = "scan";
+    STAGE ("scan");
     c = MIR_init ();
     MIR_set_error_func (c, err_func);
     if (setjmp (err_jmp)) {
@@ -557,14 +581,14 @@ static void run_case (FILE *out, char *desc) {
       MIR_scan_string (c, t0);
       fprintf (out, "|SC=ok");
       sc_ok = 1;
-      stage = "output-after-scan";
+      STAGE ("output-after-scan");
       t2 = text_of (c, &n2);
       emit_text (out, "T2", t2, n2, t0, n0);
       emit_counters (out, "2", c);
     }
     fflush (out);
     if (sc_ok) {
-      stage = "scan2";
+      STAGE ("scan2");
       d = MIR_init ();
       MIR_set_error_func (d, err_func);
       if (setjmp (err_jmp)) {
@@ -572,27 +596,17 @@ static void run_case (FILE *out, char *desc) {
       } else {
         MIR_scan_string (d, t2);
         fprintf (out, "|SC2=ok");
-        stage = "output-after-scan2";
+        STAGE ("output-after-scan2");
         t3 = text_of (d, &n3);
         emit_text (out, "T3", t3, n3, t2, n2);
       }
       fflush (out);
     }
   }
-  if (want_exec) {
-    stage = "exec-original";
-    exec_ctx (out, "X0", a);
+  if (want_exec && sc_ok) {
+    STAGE ("exec-after-scan");
+    exec_ctx (out, "X2", c);
     fflush (out);
-    if (rb_ok) {
-      stage = "exec-after-read";
-      exec_ctx (out, "X1", b);
-      fflush (out);
-    }
-    if (sc_ok) {
-      stage = "exec-after-scan";
-      exec_ctx (out, "X2", c);
-      fflush (out);
-    }
   }
   if (want_exec && getenv ("C11_POSTLOAD") != NULL) {
     /* the loaded (simplified, label-renumbered, linked) context once more through both writers/readers */
@@ -600,7 +614,7 @@ static void run_case (FILE *out, char *desc) {
     static size_t pn0, pn1, pn2;
     static buf_t pw;
     static MIR_context_t e, f;
-    stage = "postload-write";
+    STAGE ("postload-write");
     if (setjmp (err_jmp)) {
       fprintf (out, "|PW=ERR:%s", err_msg);
     } else {
@@ -610,7 +624,7 @@ static void run_case (FILE *out, char *desc) {
       pw = wbuf;
       fprintf (out, "|PW=ok");
       fflush (out);
-      stage = "postload-read";
+      STAGE ("postload-read");
       e = MIR_init ();
       MIR_set_error_func (e, err_func);
       if (setjmp (err_jmp)) {
@@ -626,7 +640,7 @@ static void run_case (FILE *out, char *desc) {
         exec_ctx (out, "PX1", e);
       }
       fflush (out);
-      stage = "postload-scan";
+      STAGE ("postload-scan");
       f = MIR_init ();
       MIR_set_error_func (f, err_func);
       if (setjmp (err_jmp)) {
@@ -642,10 +656,17 @@ static void run_case (FILE *out, char *desc) {
     }
     fflush (out);
   }
-  stage = "probe";
+  STAGE ("probe-original");
   probe_fresh (out, "0", a);
-  if (rb_ok) probe_fresh (out, "1", b);
-  if (sc_ok) probe_fresh (out, "2", c);
+  if (rb_ok) {
+    STAGE ("probe-after-read");
+    probe_fresh (out, "1", b);
+  }
+  if (sc_ok) {
+    STAGE ("probe-after-scan");
+    probe_fresh (out, "2", c);
+  }
+  STAGE ("done");
   fflush (out);
 }
 
